@@ -47,7 +47,7 @@ def run(run):
 
     comp = F.adt("analysis::fixpoint::Computation")
     methods = [f for f in F.fns if f.get("impl_adt", "").endswith("analysis::fixpoint::Computation") and f["dk"] != "Closure"]
-    run.floor("Computation methods", len(methods), 15)
+    run.floor("Computation methods", len(methods), 8)
 
     def writers_of(field):
         out = []
@@ -73,7 +73,7 @@ def run(run):
         run.check("R1", "no-field-access-outside-impl", not outside, "fields of Computation are accessed outside its impl: %s" % sorted(outside)[:3])
         ws = writers_of("node_values")
         names = sorted({f["name"] for f, _ in ws})
-        run.floor("writers of node_values", len(ws), 2)
+        run.floor("writers of node_values", len(ws), 1)
         run.note("writers of self.node_values: %s" % names)
 
     run.guarded("R1", r1)
